@@ -1410,6 +1410,9 @@ fn c05_token_points() {
     assert!(Lexer::verif_token(".a") == (true, 0, 0));
     assert!(Lexer::verif_token("._é") == (true, 2, 0));
     assert!(Lexer::verif_token("..é") == (true, 2, 0));
+    // a digit after the dot does not start a key (`.1` is not `."1"`)
+    assert!(Lexer::verif_token(".1") == (true, 1, 0));
+    assert!(Lexer::verif_token(".a1") == (true, 0, 0));
     // identifiers, numbers and sigils stop before the non-ASCII character
     assert!(Lexer::verif_token("aé") == (true, 2, 0));
     assert!(Lexer::verif_token("1é") == (true, 2, 0));
